@@ -475,6 +475,18 @@ def eps_of(doc):
     return sm * 1e-12, math.sqrt(sm * 1e-12)
 
 
+def hard_overlap_free(doc) -> bool:
+    """no two rectangles of any hard module of the document overlap at all (touching allowed)"""
+    for i in mods_of(doc).values():
+        if isinstance(i, dict) and nc.doc_is_hard(i):
+            rs = rects_of(i)
+            for a in range(len(rs)):
+                for b in range(a + 1, len(rs)):
+                    if nc.boxes_overlap_area(nc.box_of(rs[a]), nc.box_of(rs[b])) > 0:
+                        return False
+    return True
+
+
 def near_misses(rng, doc):
     """Yields (tag, document): one deviation that is not in the property's list of defects."""
     mods, nets = mods_of(doc), nets_of(doc)
